@@ -14,7 +14,8 @@ RULE = ('grids built from geometry recipes (rectangular and irregular, all atmos
         'fracture-plane sets x scalar/list spacing x full/partial selection, with boundary blocks of zero or huge volume; '
         'embed: volume conservation. Non-trivial = a connection with unequal distances or non-zero gravity cosine was '
         'reversed, or MINC was applied to a partial selection / unnormalised fractions; distinct = case JSON.'
-        " Also: reorder(geo=...) from the geometry the grid was built from, with the geometry's atmosphere type optionally set through its property first; block centres must survive the file (presence included).")
+        " Also: reorder(geo=...) from the geometry the grid was built from, with the geometry's atmosphere type optionally set through its property first; block centres must survive the file (presence included)."
+        " Rounds 7-10: MINC after reverse / rotate / demote; selections given as names, objects, None or the grid's own list; embedded grids converted from a geometry with atmosphere blocks; a first embed refused for a shared block name.")
 ASSUMPTIONS = ['gravity cosine and distances are stored for the orientation block[0] -> block[1] (TOUGH2 CONNE record semantics)',
                'after a data-file round trip values are compared to the precision of their fields (relative 6e-4 for 10.4e fields, '
                'absolute 6e-8 for the 10.7f gravity cosine)']
